@@ -246,12 +246,16 @@ func nested3(id int, variant int) M {
 	return p
 }
 
-func run(c *core.Ctx) error {
+// Corpus returns the fixed capture shapes plus nRandom seeded random closure programs, ids from firstID.
+func Corpus(rng *rand.Rand, nRandom int, firstID int, deepMax int) []M {
 	var progs []M
-	id := 0
+	id := firstID - 1
 	add := func(p M) { progs = append(progs, p) }
 	for calls := 1; calls <= 3; calls++ {
 		for _, deep := range []int{0, 3, 40, 400} {
+			if deep > deepMax {
+				continue
+			}
 			id++
 			add(maker(id, calls, deep))
 		}
@@ -270,12 +274,17 @@ func run(c *core.Ctx) error {
 		id++
 		add(nested3(id, v))
 	}
-	g := &gen{rng: c.Rand}
-	nRandom := c.Pick(400, 6000)
+	g := &gen{rng: rng}
 	for i := 0; i < nRandom; i++ {
 		id++
 		add(g.random(id))
 	}
+	return progs
+}
+
+func run(c *core.Ctx) error {
+	nRandom := c.Pick(400, 6000)
+	progs := Corpus(c.Rand, nRandom, 1, 400)
 	c.Logf("instance: %d fixed shapes + %d seeded random closure programs", len(progs)-nRandom, nRandom)
 	// default stack, and small initial stacks: every program becomes a reallocation test
 	MaxSteps = 20000
